@@ -299,6 +299,22 @@ def b_sum(it, x, start=0):
         first = it.iterable(it.eval(gens[0].iter, x.env))
         if not isinstance(first, list):
             return _sym_sum_gen(it, x, first, start)
+        if len(gens) == 1 and gens[0].ifs:
+            # concrete list, possibly symbolic filter: no path fork, the filter becomes a guard on the summand
+            tot = start
+            for el in first:
+                e2 = dict(x.env)
+                it.assign_target(gens[0].target, el, e2)
+                cnd = conj(*[it.truth(it.eval(c, e2)) for c in gens[0].ifs])
+                if cnd is False:
+                    continue
+                v = it.eval(x.node.elt, e2)
+                if cnd is not True:
+                    if is_arr(v):
+                        raise Unsupported("sum of arrays under a symbolic filter")
+                    v = ite(cnd, to_real(v), z3.RealVal(0))
+                tot = it.binop(ast.Add(), tot, v)
+            return tot
     seq = _as_iter(it, x)
     if isinstance(seq, list):
         tot = start
